@@ -148,12 +148,14 @@ class CVRP(Spec):
     sources = ("gen", "lat", "flt")
     envcls = "CVRPEnv"
 
+    VC = [1.0, 1.0, 1.0, 2.0, 1.5]  # vehicle_capacity option of the generator (capacity in normalised demand units)
+
     def cfg(self, tier):
-        return st.tuples(self.sizes(tier), st.sampled_from([None, None, 10.0, 15.0, 20.0, 40.0])).map(
-            lambda t: {"n": t[0], "capacity": t[1]})
+        return st.tuples(self.sizes(tier), st.sampled_from([None, None, 10.0, 15.0, 20.0, 40.0]),
+                         st.sampled_from(self.VC)).map(lambda t: {"n": t[0], "capacity": t[1], "vc": t[2]})
 
     def gparams(self, cfg):
-        p = dict(num_loc=cfg["n"])
+        p = dict(num_loc=cfg["n"], vehicle_capacity=cfg.get("vc", 1.0))
         if cfg.get("capacity"):
             p["capacity"] = cfg["capacity"]
         return p
@@ -174,7 +176,7 @@ class CVRP(Spec):
         return 2 * cfg["n"] + 1
 
     def judge_cfg(self, cfg):
-        return {"vehicle_capacity": 1.0}
+        return {"vehicle_capacity": cfg.get("vc", 1.0)}
 
 
 class SDVRP(CVRP):
@@ -183,7 +185,7 @@ class SDVRP(CVRP):
 
     def bound(self, cfg, r):
         n = cfg["n"]
-        tot = float(sum(r["demand"]))
+        tot = float(sum(r["demand"])) / cfg.get("vc", 1.0)
         return 2 * (n + math.ceil(tot - 1e-9)) + 1
 
 
@@ -193,8 +195,8 @@ class CVRPTW(CVRP):
 
     def cfg(self, tier):
         return st.tuples(self.sizes(tier), st.sampled_from([None, 10.0, 20.0]), st.booleans(),
-                         st.sampled_from([480, 480, 600, 450])).map(
-            lambda t: {"n": t[0], "capacity": t[1], "scale": t[2], "max_time": t[3]})
+                         st.sampled_from([480, 480, 600, 450]), st.sampled_from(self.VC)).map(
+            lambda t: {"n": t[0], "capacity": t[1], "scale": t[2], "max_time": t[3], "vc": t[4]})
 
     def gparams(self, cfg):
         p = super().gparams(cfg)
@@ -452,8 +454,10 @@ class MTVRP(Spec):
 
     def cfg(self, tier):
         return st.tuples(self.sizes(tier), st.sampled_from(MTVRP_VARIANTS + ["all", "all", "single_feat"]),
-                         st.sampled_from([1.0, 1.0, 0.5, 0.75, 2.0])).map(
-            lambda t: {"n": t[0], "variant": t[1], "speed": t[2]})
+                         st.sampled_from([1.0, 1.0, 0.5, 0.75, 2.0]), st.booleans(), st.sampled_from([0.2, 0.2, 0.5]),
+                         st.sampled_from([3.0, 3.0, 2.9, 4.0])).map(
+            lambda t: {"n": t[0], "variant": t[1], "speed": t[2], "scale_demand": t[3] or t[1] in ("all",),
+                       "backhaul_ratio": t[4], "distance_limit": t[5]})
 
     def build(self, cfg):
         from rl4co.envs import MTVRPEnv
@@ -461,7 +465,10 @@ class MTVRP(Spec):
         # precondition of the generator's time-window construction (not asserted by it): a customer must be able to
         # be served and the vehicle be back within max_time, i.e. max_time has to grow with 1/speed for slow vehicles
         return MTVRPEnv(generator_params=dict(num_loc=cfg["n"], variant_preset=cfg["variant"], speed=sp,
-                                              max_time=4.6 / min(sp, 1.0)), check_solution=False)
+                                              max_time=4.6 / min(sp, 1.0),
+                                              scale_demand=cfg.get("scale_demand", True),
+                                              backhaul_ratio=cfg.get("backhaul_ratio", 0.2),
+                                              distance_limit=cfg.get("distance_limit", 3.0)), check_solution=False)
 
     def lattice(self, cfg, B, exact=True):
         """Hand-built instances in the documented reset format; features follow the preset letters."""
